@@ -220,7 +220,7 @@ W_IDNA_WPT = WI('wpt-idna-inputs', gen_idna.w_wpt_inputs, 1, 0)
 
 
 PROPS['C06'] = dict(level=MC, rule=RULE_IDNA, assumptions=ASSUME_IDNA, models=[M_IDNA, M_IDNA_WIDE],
-                    workloads=[W_IDNA_REPLAY, W_IDNA_VEC, W_IDNA_WPT, WI('fragment-structured', gen_idna.w_structured), WI('fragment-joiners-bidi', gen_idna.w_joiners), WI('idna-building-blocks', gen_idna.w_blocks, 300, 20000),
+                    workloads=[W_IDNA_REPLAY, W_IDNA_VEC, W_IDNA_WPT, WI('fragment-structured', gen_idna.w_structured), WI('fragment-joiners-bidi', gen_idna.w_joiners), WI('idna-building-blocks', gen_idna.w_blocks, 300, 20000), WI('several-ace-labels', gen_idna.w_multi_ace, 100, 5000),
                                WI('fragment-random', gen_idna.w_frag_random, 4000, 120000),
                                WI('punycode-labels', gen_idna.w_puny_labels, 600, 20000),
                                WI('punycode-plain-letters', gen_idna.w_puny_plain, 1500, 60000)])
